@@ -2,7 +2,7 @@
 # the real code, VC construction, discharge with z3 (cvc5 as second opinion), models.
 import os, sys, time, json, subprocess, tempfile, random, hashlib, traceback, signal
 import z3
-from . import val, contracts as CT
+from . import val, canon, contracts as CT
 from .sym import (SymInt, SymBool, EngineError, LeakError, fresh, lift, uterm, from_term, bterm, land, lnot, mkbool)
 from .sbytes import SBytes, from_items
 from .interp import Interp, explore, Infeasible, PathLimit, IStopIteration
@@ -268,6 +268,12 @@ def _run_symbolic(ob, case, res, tmo, seed):
             if z3.is_true(ts):
                 res['backend']['rewriter'] = res['backend'].get('rewriter', 0) + 1
                 continue
+            try:
+                if canon.closes(ts):
+                    res['backend']['gf2-canon'] = res['backend'].get('gf2-canon', 0) + 1
+                    continue
+            except RecursionError:
+                pass
             v, m, dt, be = solve(pc, z3.Not(ts), tmo * 1000)
             res['solver_s'] += dt
             res['backend'][be] = res['backend'].get(be, 0) + 1
